@@ -33,7 +33,7 @@ type known struct {
 
 func env() []string {
 	e := os.Environ()
-	return append(e, "GOFLAGS=-mod=mod", "GOPROXY=off", "GOSUMDB=off", "GOTOOLCHAIN=local")
+	return append(e, "GOFLAGS=-mod=mod", "GOPROXY=off", "GOSUMDB=off", "GOTOOLCHAIN=local", "GODEBUG=goindex=0")
 }
 
 func die(code int, format string, a ...interface{}) {
